@@ -200,6 +200,25 @@ def run(run):
                 continue
             # value derived from response: must be `resp[2] == 1` style; accept compare on subscript of send result
             okv = isinstance(v, ast.Compare) and isinstance(v.left, ast.Subscript)
+            if not okv:
+                # the same through single-definition locals
+                okv = False
+                for rn in g.nodes_of(r):
+                    try:
+                        exps = PV.expand(np_, dc, v, rn, stop={pparam})
+                    except AnalysisError:
+                        exps = set()
+                    okv = bool(exps)
+                    for t in exps:
+                        try:
+                            e_ = ast.parse(t, mode="eval").body
+                        except SyntaxError:
+                            okv = False
+                            break
+                        if not (isinstance(e_, ast.Compare) and isinstance(e_.left, ast.Subscript)):
+                            okv = False
+                    if not okv:
+                        break
             run.check("R2", okv, f"{dc.name}.new_pin returns a comparison on the device answer",
                       key=f"{np_.qualname}|return-shape", where=np_.loc(r),
                       message=f"{np_.qualname} returns `{norm(v)}`: not the device's acknowledgement")
